@@ -346,7 +346,7 @@ impl Family for LanczosFamily {
     fn count(&self, _prop: &str, tier: Tier) -> u64 {
         match tier {
             Tier::Quick => 1600,
-            Tier::Thorough => 12000,
+            Tier::Thorough => 5000,
         }
     }
 
